@@ -16,6 +16,13 @@ import threading
 
 def main():
     path, focus, nthreads = sys.argv[1], int(sys.argv[2]), int(sys.argv[3])
+    if len(sys.argv) > 4 and sys.argv[4] == "strict":
+        # the host program set its numeric policy BEFORE it ever touched the library: floating-point anomalies raise,
+        # runtime warnings are errors (a lazily built table is then built under that policy)
+        import warnings
+        import numpy as np
+        np.seterr(all="raise")
+        warnings.simplefilter("error", RuntimeWarning)
     raw = pickle.load(open(path, "rb"))
     calls = []
     for mod, attr, a, k, want in raw:
